@@ -152,6 +152,10 @@ func runInBubble(p *Plan, mk func() []Monitor, res *Result) {
 		w.heal()
 		res.End += "+heal"
 	}
+	if p.Heal.Canary {
+		w.canaryPhase()
+		res.End += "+canary"
+	}
 	for _, m := range w.Monitors {
 		m.Final(w)
 	}
